@@ -188,11 +188,37 @@ macro_rules! nest_arrays { ($k:literal, $comb:expr, $a:expr, $b:expr) => {{
         _ => panic!("nest {}", $comb),
     }
 }}; }
+/// the same nests over TUPLES (outer 2-tuple, inner K-tuples; cont `nestt`, n = 2K): the macro-generated impls; for join the tuple algorithm
+#[cfg(any(feature = "fc-std", feature = "fc-alloc"))]
+macro_rules! nest_tuples {
+    (@F $x:ident) => { Fut }; (@S $x:ident) => { Str };
+    (@f $x:ident $it:ident) => { Fut($it.next().unwrap()) }; (@s $x:ident $it:ident) => { Str($it.next().unwrap()) };
+    ($comb:expr, $a:expr, $b:expr, $($x:ident)+) => {{
+        fn ft(v: Vec<Child>) -> ($(nest_tuples!(@F $x),)+) { let mut it = v.into_iter(); ($(nest_tuples!(@f $x it),)+) }
+        fn st(v: Vec<Child>) -> ($(nest_tuples!(@S $x),)+) { let mut it = v.into_iter(); ($(nest_tuples!(@s $x it),)+) }
+        let (a, b) = ($a, $b);
+        match $comb {
+            "nest_jj" => fut_fn((ft(a).join(), ft(b).join()).join(), |(x, y)| { let mut v = x.into_vals(); v.extend(y.into_vals()); list("R", &v) }),
+            "nest_jr" => fut_fn((ft(a).race(), ft(b).race()).join(), |o| list("R", &o.into_vals())),
+            "nest_rj" => fut_fn((ft(a).join(), ft(b).join()).race(), |o| list("R", &o.into_vals())),
+            "nest_jt" => fut_fn(futures_concurrency::future::FutureExt::join(ft(a).join(), ft(b).join()), |(x, y)| { let mut v = x.into_vals(); v.extend(y.into_vals()); list("R", &v) }),
+            "nest_mm" => str_fn((st(a).merge(), st(b).merge()).merge(), |o| list("S", &o.into_vals())),
+            "nest_cm" => str_fn((st(a).merge(), st(b).merge()).chain(), |o| list("S", &o.into_vals())),
+            "nest_zm" => str_fn((st(a).merge(), st(b).merge()).zip(), |o| list("S", &o.into_vals())),
+            "nest_gj" => { let mut g = FutureGroup::new(); g.insert(ft(a).join()); g.insert(ft(b).join()); str_fn(g, |o| list("S", &o.into_vals())) }
+            "nest_gm" => { let mut g = StreamGroup::new(); g.insert(st(a).merge()); g.insert(st(b).merge()); str_fn(g, |o: Val| list("S", &o.into_vals())) }
+            _ => panic!("nest {}", $comb),
+        }
+    }};
+}
 /// nests: the leaves are split into two halves, each half feeds an inner combinator, the two inner combinators feed the outer one.
 /// The leaf-level monitors (wake-ups, concurrency) are evaluated on the trace; the composed model (coq/Model/Nest.v) predicts it.
 #[cfg(any(feature = "fc-std", feature = "fc-alloc"))]
 fn build_nest(comb: &str, cont: &str, kids: Vec<Child>) -> PollFn {
     let n = kids.len(); let mut a = kids; let b = a.split_off(n / 2);
+    if cont == "nestt" {
+        return match n { 2 => nest_tuples!(comb, a, b, x), 4 => nest_tuples!(comb, a, b, x y), 6 => nest_tuples!(comb, a, b, x y z), _ => panic!("nestt n={n}") };
+    }
     if cont == "nesta" {
         return match n { 2 => nest_arrays!(1, comb, a, b), 4 => nest_arrays!(2, comb, a, b), 6 => nest_arrays!(3, comb, a, b), _ => panic!("nesta n={n}") };
     }
